@@ -448,6 +448,10 @@ class InProtocolBase(ProtocolMixin):
         """
 
         try:
+            # strptime also accepts fields that are not zero-padded
+            if _date_re.match(string) is None:
+                raise ValueError(string)
+
             return date(*(strptime(string, u'%Y-%m-%d')[0:3]))
 
         except ValueError:
